@@ -126,15 +126,15 @@ func (g *c05gen) probe(line int, expr, kind, name string, defined bool) {
 }
 
 type c05job struct {
-	id       string
-	needs    []int
-	outputs  []string
-	isCall   bool     // calls a remote reusable workflow: outputs unknown
-	stepIDs  []string // per step, "" = no id
-	mkeys    []string // literal matrix keys (rows + include)
-	mopen    bool     // some part of the matrix is expression-defined: any key allowed
-	hasMat   bool
-	matrixY  []string // yaml lines of the strategy section (indented by 4)
+	id      string
+	needs   []int
+	outputs []string
+	isCall  bool     // calls a remote reusable workflow: outputs unknown
+	stepIDs []string // per step, "" = no id
+	mkeys   []string // literal matrix keys (rows + include)
+	mopen   bool     // some part of the matrix is expression-defined: any key allowed
+	hasMat  bool
+	matrixY []string // yaml lines of the strategy section (indented by 4)
 }
 
 func TestC05(t *testing.T) {
